@@ -79,6 +79,22 @@ def legal_vectors(tier):
                                                 e = dict(d)
                                                 e["-luq"], e["-lt"], e["-llq"] = luq, lt, llq
                                                 out.append(e)
+    # two-digit counts (numeric, not textual, comparison of bounds)
+    for mp in ("ha", "hr", "spa", "sm"):
+        for n1, n2 in ((9, 10), (10, 9), (11, 12), (10, 10)):
+            m = n1 if mp == "sm" else n2
+            for pmin, pmax in ((1, m), (9, m), (m, m), (2, 10 if m >= 10 else m)):
+                if pmin > pmax:
+                    continue
+                d = {"-numinst": 1, "-mp": mp, "-n1": n1, "-n2": None if mp == "sm" else n2,
+                     "-n3": 10 if mp == "spa" else None, "-pmin": pmin, "-pmax": pmax,
+                     "-uq": None if mp == "sm" else m + 1, "-lq": None if mp == "sm" else 9}
+                if mp in ("sm", "hr"):
+                    d["-twopl"] = True
+                if mp == "spa":
+                    d.update({"-luq": 10, "-lt": 9, "-llq": 2})
+                if d not in out:
+                    out.append(d)
     # optional parameters on a reduced base set
     extra = []
     for d in out:
@@ -223,8 +239,9 @@ def main(tier):
     base_for_faults = [d for d in legal
                        if d.get("-t1") is None and d.get("-skew") is None and
                        d["-numinst"] == 1 and
-                       (tier == "thorough" or (d["-n1"] <= 2 and d.get("-lq") in (None, 1) and
-                                               d.get("-llq") in (None, 0)))]
+                       (tier == "thorough" or d["-n1"] >= 9 or
+                        (d["-n1"] <= 2 and d.get("-lq") in (None, 1) and
+                         d.get("-llq") in (None, 0)))]
     for d in base_for_faults:
         for desc, e in perturbations(d):
             items.append(("illegal", desc, e))
